@@ -151,9 +151,42 @@ func VerifC06OpenFile() {
 // VerifC06API: which lock each entry point takes.
 func VerifC06API() {
 	fsys := vSetup([]byte("old"))
-	api := rt.IntRange(0, 6)
+	api := rt.IntRange(0, 7)
 	wantEX := true
 	switch api {
+	case 7:
+		// the first open of the lock file fails (permission denied, or an I/O error): whatever Lock
+		// does about it, a successful Lock means an exclusive lock, a failed one leaves nothing behind
+		fsys.FailAt = fsys.Ops
+		if rt.Bool() {
+			fsys.FailErr = syscall.EACCES
+		}
+		mu := MutexAt(vPath)
+		unlock, err := mu.Lock()
+		if err == nil {
+			held := 0
+			for _, fl := range fsys.Flocks {
+				if fl.How != syscall.LOCK_UN {
+					held++
+					rt.Assert(fl.How == syscall.LOCK_EX, "mutex-success-means-exclusive-lock")
+				}
+			}
+			rt.Assert(held == 1, "mutex-success-holds-one-lock")
+			unlock()
+		} else {
+			rt.Reach("mutex-open-fault-reported")
+		}
+		locks, unlocks := 0, 0
+		for _, fl := range fsys.Flocks {
+			if fl.How == syscall.LOCK_UN {
+				unlocks++
+			} else {
+				locks++
+			}
+		}
+		rt.Assert(locks == unlocks, "every-lock-released")
+		rt.Assert(fsys.OpenHandles(vPath) == 0, "api-closes-descriptor")
+		return
 	case 0:
 		f, err := Open(vPath)
 		rt.Assert(err == nil, "open-ok")
